@@ -232,6 +232,7 @@ fn transform_submodule(
         // Replace the placeholder with their concrete data type
         // - check that replacements are concrete types, with no generics themselves
         // - check that replacement conforms to interface
+        let mut replacements = Vec::with_capacity(req_args.len());
         for (i, generic_binding) in req_args.iter().enumerate() {
             // The assigment of the local submodule
             let concrete_replacement_name = &typ.args[i];
@@ -255,11 +256,17 @@ fn transform_submodule(
                 return Err(ErrorKind::AssignedTypDoesNotConformToInterface(typ.clone()).into());
             }
 
-            // Replace all instances of the generic binding with the concrete typ.
-            for submodule in &mut node.submodules {
-                if *submodule.typ.typ == generic_binding.binding {
-                    submodule.typ = concrete_replacement.clone();
-                }
+            replacements.push(concrete_replacement.clone());
+        }
+
+        // Replace all instances of the generic bindings with the concrete types, all at once:
+        // a replacement may itself be named like another binding.
+        for submodule in &mut node.submodules {
+            if let Some(i) = req_args
+                .iter()
+                .position(|generic_binding| *submodule.typ.typ == generic_binding.binding)
+            {
+                submodule.typ = replacements[i].clone();
             }
         }
 
